@@ -3,6 +3,7 @@
 
     @ <chol|ldlt|qr> <fp|rat> <rows> <cols> <entries row-major> names=<n0>,<n1> via=<entry point>
     @ <chol|ldlt|qr> f64 <rows> <cols> <kind> <seed> via=…
+    @ api <ldlt|qr> <matrix|tensor>      (constructors and trait impls of the result structs)
 
   Answers: `none` or `some <shape facts> <identity checks> ## <factor entries>`.
 
@@ -158,6 +159,11 @@ def answerF64 (alg kind : String) (rows cols : Nat) : String :=
 
 def step (s : State) (toks : List String) : State × String :=
   match toks with
+  | ["@", "api", _, _] =>
+    -- API surface of the result structs: `from_unchecked` stores its two arguments in name order,
+    -- `clone` / `clone_from` reproduce both fields, `Display` prints each factor under its own letter
+    -- and `Debug` each field under its own name
+    (s, "from_unchecked=ok clone=ok clone_from=ok display=ok debug=ok")
   | "@" :: alg :: ty :: rowsS :: colsS :: dataS :: rest =>
     match rowsS.toNat?, colsS.toNat? with
     | some rows, some cols =>
